@@ -108,6 +108,13 @@ func (e *Engine) initPackages(slv *Solver) error {
 			order = append(order, p)
 		}
 	}
+	// the generated configuration packages: their initialisers are run too (validation lookup
+	// tables), except the protobuf type registration (reflection; nothing executed here reads it)
+	for path, p := range e.pkgs {
+		if strings.HasPrefix(path, modPath+"/config/gen/go/") {
+			order = append(order, p)
+		}
+	}
 	for _, p := range order {
 		e.initPkgs[p.Pkg.Path()] = true
 	}
@@ -283,7 +290,7 @@ func (e *Engine) intrByPattern(fn *ssa.Function) (Intrinsic, bool) {
 		if fn.Pkg != nil && fn.Name() == "init" && !e.initPkgs[fn.Pkg.Pkg.Path()] {
 			return func(c *CallCtx) []Outcome { return c.ret(nil) }, true
 		}
-		if fn.Pkg != nil && fn.Name() == "init" && strings.HasPrefix(fn.Pkg.Pkg.Path(), modPath+"/config/") {
+		if fn.Pkg != nil && strings.HasPrefix(fn.Name(), "file_") && strings.HasSuffix(fn.Name(), "_proto_init") {
 			return func(c *CallCtx) []Outcome { return c.ret(nil) }, true
 		}
 	}
